@@ -167,7 +167,7 @@ func capsAnswer(a string) (req, res []int) {
 func (p *loginPeer) encode(e absPkg) []byte {
 	switch e.T {
 	case "ack":
-		st := map[string]int{"succeed": 5, "fail": 6, "negotiate": 7}[e.A]
+		st := map[string]int{"succeed": 5, "fail": 6, "negotiate": 7, "succeedx": 0x85, "negotiatex": 0x87}[e.A]
 		return encLoginAck(st, [4]byte{5, 0, 0, 0}, "ASE", [4]byte{16, 0, 3, 0}).Bytes
 	case "msg":
 		id := map[string]int{"enc4": 35, "enc3": 30, "other": 12}[e.A]
@@ -371,7 +371,16 @@ func runLogin(tr *Tracer, rng *mrand.Rand, scn *loginScn) {
 	mc.onWrite = peer.onWrite
 
 	var cfgErrText string
-	cfg, err := tds.NewLoginConfig(info)
+	// "the default configuration" whatever else the connection information says: transport encryption,
+	// its host name, the network - none of them is a reason to send a password in clear
+	cinfo := *info
+	switch scn.Cut % 3 {
+	case 1:
+		cinfo.TLSEnable, cinfo.TLSHostname = true, "db.example.org"
+	case 2:
+		cinfo.TLSEnable, cinfo.TLSSkipValidation = true, true
+	}
+	cfg, err := tds.NewLoginConfig(&cinfo)
 	if err != nil {
 		cfgErrText = err.Error()
 	}
